@@ -676,6 +676,8 @@ def oracle(c):
         L = c["L"]
         return {"iv": [[rank[x[0]], x[1], min(x[1] + L, sizes[x[0]])] if x[3] else [rank[x[0]], max(x[2] - L, 0), x[2]] for x in kept]}
     if not inside:
+        if op == "merge" and path == "mem" and all(0 <= x[1] <= x[2] for x in kept):
+            return {"err": "raised"}      # an interval beyond its chromosome is not a valid input: it must not be merged silently
         return SKIP
     if op in ("pileup", "mask"):
         chroms = []
@@ -955,6 +957,14 @@ def cases(tier, rng):
             ok, ig = _sorted_genome(iv, rank)
             merged_in = ok + ig if rng.random() < 0.5 else ig + ok
             yield dict(base, op="merge", via=via, iv=merged_in, d=rng.choice([0, 0, 1, 2]))
+            if ok and rng.random() < 0.4:
+                bad = [list(x) for x in ok]
+                j = rng.randrange(len(bad))
+                if rng.random() < 0.5:
+                    bad[j][2] = sizes[bad[j][0]] + rng.choice([1, 2])          # stop beyond the chromosome end
+                else:
+                    bad[j][1] = bad[j][2] = sizes[bad[j][0]]                   # starts at the chromosome end
+                yield dict(base, op="merge", via=via, iv=bad, d=rng.choice([0, 1]))
             yield dict(base, op="sort", via=via, iv=iv)
             ivz = _rand_iv(rng, sizes, cands, k, valid=False)
             yield dict(base, op="clip", via=via, iv=ivz)
